@@ -35,7 +35,6 @@ type accessFact struct {
 	Line   int    `json:"line"`
 }
 
-func extractBuiltins(repo string, files map[string]string)  {}
 func extractGenerated(repo string, files map[string]string) {}
 func extractAsserts(repo string, files map[string]string)   {}
 func extractAccess(repo string, files map[string]string)    {}
